@@ -27,7 +27,7 @@ def _unescape(text: str) -> str:
         return text
 
 
-def parse(log_path: Path):
+def parse(log_path: Path, with_args: bool = False):
     pending: dict[tuple[str, str], str] = {}
     with open(log_path, "r", errors="replace") as handle:
         for raw in handle:
@@ -50,7 +50,10 @@ def parse(log_path: Path):
             # strip fd annotations like 3</path> so that they are not taken for path arguments
             args = re.sub(r"\d+<[^>]*>", "FD", rest)
             paths = [_unescape(p) for p in _STR.findall(args)]
-            yield int(pid), call, paths, ret
+            if with_args:
+                yield int(pid), call, paths, ret, args
+            else:
+                yield int(pid), call, paths, ret
 
 
 def split_by_marker(log_path: Path, cwd: str):
